@@ -1059,7 +1059,11 @@ impl FilterMap {
 
     #[inline]
     pub(crate) fn any_enabled(self) -> bool {
-        self.bits != u64::MAX
+        // Only subscribers that have a per-subscriber filter own a bit in this
+        // map. Even when every bit is set, the span or event was merely
+        // disabled by (up to 64) per-subscriber filters: subscribers without a
+        // filter still want it, so this must never be read as "nobody does".
+        true
     }
 }
 
